@@ -15,7 +15,7 @@ Theorem c33_perm_bijective : forall m off skip,
 Proof. exact perm_bijective. Qed.
 Print Assumptions c33_perm_bijective.
 
-From Verif.C33 Require Import Fill Order Indep ByteOrder MeetsSpec Wrap.
+From Verif.C33 Require Import Fill Order Indep ByteOrder MeetsSpec Wrap ArithModel ArithProofs PermSpec.
 
 (* For every prime table size, all hash functions, byte orders and lists of AddBackend calls: Generate neither
    runs off a preference list (no index panic) nor out of the modelled fuel; with no backend it returns nil,
@@ -101,3 +101,38 @@ Theorem c33_go_int32_refuted :
   exists r1 r2 m, r1 < 2 ^ 32 /\ (fst (go_offset_and_skip 32 (Z.of_N r1) (Z.of_N r2) (Z.of_N m)) < 0)%Z.
 Proof. exact go32_refuted. Qed.
 Print Assumptions c33_go_int32_refuted.
+
+(* Integer types as data: for ANY width/signedness/reduction description of the arithmetic in hashFromString /
+   offsetAndSKip / permutation that passes the decidable test arith_ok_b (both reductions present, a uint32 fits,
+   mmax*mmax fits), the typed computation equals the model's for every table size 2 <= m <= mmax.  The translator
+   extracts the description from the Go source on every run; coq/gen/C33/PropsGenArith.v instantiates this with it
+   (c33_source_arith_exact, c33_source_permutation_bijective) and stops compiling when the source's types allow
+   wrap-around. *)
+Theorem c33_typed_arith_exact : forall a mmax,
+  arith_ok_b a mmax = true ->
+  forall m r1 r2 j : N, 2 <= m -> (Z.of_N m <= mmax)%Z -> r1 < 2 ^ 32 -> r2 < 2 ^ 32 -> j < m ->
+    offset_and_skip_a a (Z.of_N m) (Z.of_N r1) (Z.of_N r2) = (Z.of_N (r1 mod m), Z.of_N (r2 mod (m - 1) + 1)) /\
+    perm_at_a a (Z.of_N m) (Z.of_N (r1 mod m)) (Z.of_N (r2 mod (m - 1) + 1)) (Z.of_N j)
+    = Z.of_N (perm_at m (r1 mod m) (r2 mod (m - 1) + 1) j).
+Proof. exact arith_ok_sound. Qed.
+Print Assumptions c33_typed_arith_exact.
+
+(* The preference-list oracle (every slot 0..m-1 exactly once) accepts the list the typed model computes, for every
+   prime size up to 65535, every backend name and byte order, whenever the types pass arith_ok_b; both halves of
+   check_case are true on such a case. *)
+Theorem c33_perm_model_meets_spec : forall env p,
+  arith_ok_b (p_arith p) 65535 = true -> p_m p <= 65535 ->
+  p_obs p = match permutation_a (p_arith p) (p_bo p) (p_cpu p) fnv32 fnv32 (p_m p) (p_name p) with
+            | Some l => PList l | None => PErr end ->
+  check_case env (CPerm p) = (true, true).
+Proof. exact perm_model_meets_spec. Qed.
+Print Assumptions c33_perm_model_meets_spec.
+
+(* ... and the test is not vacuous: uint32 arithmetic with an unreduced offset yields a preference list that is not
+   a permutation (the seeded change uint32-permutation-wrap; found concretely by the directed generator). *)
+Theorem c33_uint32_unreduced_refuted :
+  exists (m r1 r2 : N), is_prime m = true /\ r1 < 2 ^ 32 /\ r2 < 2 ^ 32 /\
+    let '(off, skip) := offset_and_skip_a uint32_unreduced (Z.of_N m) (Z.of_N r1) (Z.of_N r2) in
+    is_perm_of_range m (map (fun j => perm_at_a uint32_unreduced (Z.of_N m) off skip (Z.of_N j)) (nseq 0 (N.to_nat m))) = false.
+Proof. exact uint32_unreduced_refuted. Qed.
+Print Assumptions c33_uint32_unreduced_refuted.
